@@ -112,14 +112,9 @@ def optInt? (o : Option Int) : CM Int :=
   | some v => pure v
   | none => raise (.py .KeyError)
 
-/-- `_begin_new_stream(stream_id, allowed_ids)`; `allowedOdd` is AllowedStreamIDs.ODD -/
-def beginNewStream (sid : Int) (allowedOdd : Bool) : CM Unit := do
+/-- the second half of `_begin_new_stream`: build the H2Stream object, register it, move the watermark -/
+def createStream (sid : Int) (outbound : Bool) : CM Unit := do
   let c ← getS
-  let outbound := streamIdIsOutbound c sid
-  let highest := if outbound then c.highestOut else c.highestIn
-  if sid ≤ highest then raise (.h2 .StreamIDTooLowError (ExcClass.StreamIDTooLowError.classCode.map Int.ofNat) (some sid) []) else
-  if sid % 2 != (if allowedOdd then 1 else 0) then raise pErr else
-  if sid > HIGHEST_ALLOWED_STREAM_ID then raise pErr else
   let iw ← optInt? c.localSettings.initialWindowSize
   let ow ← optInt? c.remoteSettings.initialWindowSize
   match WindowManager.init iw with
@@ -128,6 +123,16 @@ def beginNewStream (sid : Int) (allowedOdd : Bool) : CM Unit := do
     let st : Stream := { sm := { sid := sid }, maxOutFrame := c.maxOutFrame, outWin := ow, inWM := wm }
     putStream sid st
     modifyS fun c => if outbound then { c with highestOut := sid } else { c with highestIn := sid }
+
+/-- `_begin_new_stream(stream_id, allowed_ids)`; `allowedOdd` is AllowedStreamIDs.ODD -/
+def beginNewStream (sid : Int) (allowedOdd : Bool) : CM Unit := do
+  let c ← getS
+  let outbound := streamIdIsOutbound c sid
+  let highest := if outbound then c.highestOut else c.highestIn
+  if sid ≤ highest then raise (.h2 .StreamIDTooLowError (ExcClass.StreamIDTooLowError.classCode.map Int.ofNat) (some sid) []) else
+  if sid % 2 != (if allowedOdd then 1 else 0) then raise pErr else
+  if sid > HIGHEST_ALLOWED_STREAM_ID then raise pErr else
+  createStream sid outbound
 
 /-- `_get_stream_by_id` (only checks presence / raises) -/
 def getStreamById (sid : Int) : CM Unit := do
